@@ -296,3 +296,15 @@ def expand_local(fn_node, name, stop=()):
     if name not in defs:
         return None
     return exp(defs[name][-1])
+
+
+def reshaped(fn_node):
+    """a copy of the function in the statement shapes of normal_form (dict iteration over keys, list growth by
+    extend, default-then-overwrite as if/else, adjacent temporaries substituted) and in semantic expression form,
+    with the author's names kept"""
+    from .semantic import sem_norm
+    node = copy.deepcopy(fn_node)
+    node = _reshape(node)
+    node = sem_norm(node)
+    ast.fix_missing_locations(node)
+    return node
